@@ -348,3 +348,9 @@ class LogfileBigSuite(LogfileSuite):
 
 
 SUITES = [EvioSuite(), EvioNestSuite(), LogfileSuite(), LogfileBigSuite()]
+
+
+def extra_obligations(tier):
+    """the translated part of the model: regenerated from the current source and re-proved equal to what the theorems use"""
+    from vlib import gen
+    return gen.obligations(only=["gen_sanitize_is_the_model"])
